@@ -341,6 +341,12 @@ def plan_c14():
             {"name": "C14.seq.rc", "flavour": "native", "args": ["seq", "val=rc", "progs=%d" % T(tier, 5000, 200000)], "shards": 4, "threads": 1, "timeout": 1800},
             {"name": "C14.seq.rc.asan", "flavour": "asan", "args": ["seq", "val=rc", "progs=%d" % T(tier, 1500, 50000)], "shards": 2, "threads": 1, "timeout": 1800},
             {"name": "C14.seq.rc.miri", "flavour": "miri", "args": ["seq", "val=rc", "progs=%d" % T(tier, 4, 8), "len=40"], "miri_seeds": T(tier, 4, 48), "timeout": 900},
+            # the lock-based reference strategy under real parallelism (FREE mode only: the TOKEN scheduler cannot run it): same ledger, conservation
+            # and history oracles as the lock-free strategies; ASan / TSan for lifetime and races
+            core_free("C14.core.rwlock.free", "c01", T(tier, 5, 90), alloc="reuse", extra=["strat=rwlock"]),
+            core_free("C14.core.rwlock.quarantine", "c05", T(tier, 4, 60), alloc="quarantine", extra=["strat=rwlock"]),
+            core_free("C14.core.rwlock.asan", "c01", T(tier, 4, 60), flavour="asan", alloc="real", val="arc", extra=["strat=rwlock"]),
+            core_free("C14.core.rwlock.tsan", "c01", T(tier, 4, 60), flavour="tsan", alloc="real", val="arc", shards=1, extra=["strat=rwlock"]),
         ]
 
     def ev(merged, results):
